@@ -41,7 +41,8 @@ def gen(rng, tier, shard, nshards):
                'centripetal': rng.random() < 0.5, 'seed': rng.randrange(1 << 30)}
         npts = rng.choice([5, 6, 8, 12, 20, 30, 40, rng.randint(5, 40)])
         deg = rng.randint(1, min(5, npts - 3))
-        cs = rng.choice([deg + 2, npts - 1, rng.randint(deg + 2, npts - 1)])
+        # deg + 1 control points: a Bezier result (first and last basis functions overlap); with degree 1 nothing is left to fit
+        cs = rng.choice([deg + 1 if deg >= 2 else deg + 2, deg + 2, npts - 1, rng.randint(deg + 2, npts - 1)])
         yield {'kind': 'approx-curve', 'n': npts, 'dim': rng.choice([2, 3]), 'degree': deg, 'ctrlpts_size': cs,
                'centripetal': rng.random() < 0.5, 'seed': rng.randrange(1 << 30)}
         if i % 6 == 0:
